@@ -255,5 +255,14 @@ Definition run_C12 (op : Z) (args : list val) : val :=
           end
       | _, _, _, _ => bad_args
       end
+  (* CBitcoinAddress(x) for a bytes object / an int (not text): whatever is raised, no address
+     object may come out *)
+  | 6, [VInt chain; x; impl] =>
+      match chain_at chain, (match x with VBytes b => Some (ABytes b) | VInt n => Some (AInt n) | _ => None end) with
+      | Some p, Some arg =>
+          VList [vres vaddr (parse_arg sha256d p arg);
+                 match impl with VErr _ => VInt 1 | _ => VInt 0 end]
+      | _, _ => bad_args
+      end
   | _, _ => bad_args
   end.
